@@ -436,6 +436,11 @@ func doFormat(w io.Writer, obj Object, opt OutputOptions, needSep bool, depth in
 		return true, err
 
 	case Reference:
+		if x.Number() >= maxXRefSize {
+			// such a value cannot be made using NewReference, and
+			// the scanner reads it back as null
+			return false, errors.New("invalid reference")
+		}
 		if needSep {
 			_, err := io.WriteString(w, " ")
 			if err != nil {
